@@ -27,6 +27,14 @@ pub fn make_vm(job: &J) -> (KotoVm, Capture) {
             .unwrap_or(true),
         ..Default::default()
     });
+    // C13: an iterator source constructed on the Rust side (KIterator::with_bytes), as hosts and os.command do
+    if let Some(bytes) = job.get("bytes").and_then(|v| v.as_array()) {
+        let data: Vec<u8> = bytes.iter().filter_map(|b| b.as_u64().map(|b| b as u8)).collect();
+        let data: koto_runtime::Ptr<[u8]> = data.into();
+        vm.prelude().add_fn("byte_source", move |_| {
+            Ok(koto_runtime::KIterator::with_bytes(data.clone())?.into())
+        });
+    }
     (vm, cap)
 }
 
